@@ -98,6 +98,7 @@ pub fn def(tier: Tier) -> PropertyDef {
             sub("roundtrip_huge", tier.pick(30_000, 400_000), (stream(6, true, 100), start), check)
                 .rates(&[("payload_gt_60000", 0.05)])
                 .boxed(),
+            crate::props::binsubs::c02_sub(tier),
         ],
         workers: 16,
     }
